@@ -1,10 +1,12 @@
 """C09 generator: what the report writer prints NOW, extracted from the source with `ast`.
 
-extract(path, cls, fn) turns the body of a writer method into a tree of nodes
+extract() turns the body of Outputs.PrintOutputs (and, under 'addons' / 'sdac', of the two writers that append to the
+same file) into a tree of nodes; `x = model.a.b` shortcuts are inlined, so renaming a local changes nothing
   {'t': 'w',   'id': n, 'line': lineno, 'parts': [part, ...]}            one f.write(...)
   {'t': 'if',  'cond': src, 'body': [...], 'orelse': [...]}
   {'t': 'for', 'var': name, 'iter': src, 'body': [...]}
-  {'t': 'set', 'name': name, 'expr': src}                                local assignment
+  {'t': 'set', 'name': name, 'expr': src}                                local assignment (or 'parts' [+ 'cond', 'else_parts']
+                                                                         when it builds a piece of line text)
   {'t': 'def', 'name': name, 'src': src}                                 nested helper (the `o()` lookup)
   {'t': 'call', 'src': src}                                              the unit-conversion pass
 part = ['lit', text] | ['fld', format_spec, expr_src] | ['str', expr_src]
